@@ -994,6 +994,46 @@ def drv_shared_build(case):
     return [{"op": "shared_build", "first_before": before, "first_after_build": after_build, "first_after": after, "first_fresh": f1,
              "second": s2, "second_fresh": f2}]
 
+def drv_derive_poke(case):
+    """a model and what assume() / negate() / reduce() returned for it are two objects: calls on the one (here: calls that trigger the
+    known overwrite D2 on the CALLED object) must leave the other as it was"""
+    puan, pg = _mods()
+    tok = proj.Tok()
+    out = []
+    lv = None
+    def derive(m, kind):
+        if kind == "negate": return m.negate()
+        if kind == "reduce": return m.reduce()
+        l0 = proj.leaves(m)
+        d = {l0[0].id: proj.I(l0[0].bounds.upper)} if l0 else {}
+        if kind == "assume2" and len(l0) > 1: d[l0[-1].id] = proj.I(l0[-1].bounds.lower)
+        return m.assume(d)
+    def poke(x):
+        for c in _compounds(x)[:4]:
+            for v in (0, 1):
+                for call in (lambda: x.evaluate({c.id: v}), lambda: x.evaluate_propositions({c.id: v}), lambda: x.assume({c.id: v})):
+                    try: call()
+                    except (KeyboardInterrupt, SystemExit): raise
+                    except BaseException: pass
+    for kind in ("assume", "assume2", "negate", "reduce"):
+        m = _mk(case)
+        if not _valid(m): return []
+        try:
+            res = derive(m, kind)
+        except Exception:
+            continue
+        if proj.is_var(res): continue
+        sb = proj.node(m, tok)
+        poke(res)
+        sa = proj.node(m, tok)
+        m2 = _mk(case)
+        res2 = derive(m2, kind)
+        rb = proj.node(res2, tok)
+        poke(m2)
+        ra = proj.node(res2, tok)
+        out.append({"op": "derive_poke", "kind": kind, "source_before": sb, "source_after": sa, "result_before": rb, "result_after": ra})
+    return out
+
 def core_sha(obj):
     return _hashlib.sha256(json.dumps(obj, sort_keys=True, default=str).encode()).hexdigest()[:20]
 
